@@ -24,6 +24,8 @@ let () =
             | "amf0" -> J_amf0.run rest obs, J_amf0.oracle rest obs
             | "chunk" -> J_chunk.run rest obs, J_chunk.oracle rest obs
             | "msg" -> J_msg.run rest obs, J_msg.oracle rest obs
+            | "server" -> J_server.run rest obs, J_server.oracle rest obs
+            | "client" -> J_client.run rest obs, J_client.oracle rest obs
             | _ -> "JUDGE-UNKNOWN-COMPONENT", []
           with e -> "JUDGE-EXN " ^ Printexc.to_string e, []) in
         if model_obs <> obs then begin
